@@ -1,9 +1,17 @@
 ---- MODULE TraceConsensus ----
 (* C03 (and the "a refused block changes nothing" clause of C02) as a monitor over traces of the REAL engine.
    After every engine call the harness logs the node's observable chain state: stable, head, the unconfirmed
-   tree, the stable chain by height and, for every block, the distinct deputies RECOVERED from the confirm
-   signatures stored with it (0 = a signer that is not a deputy).  The monitor adopts the logged state and
-   requires every step to satisfy what the property demands; ancestry comes from the universe logged at reset. *)
+   tree, the stable chain by height and, for every block, the distinct nodes RECOVERED from the confirm
+   signatures stored with it (numbered as identities; 0 = a signer that is not a deputy of any term).  The monitor adopts the logged state and
+   requires every step to satisfy what the property demands; ancestry comes from the universe logged at reset.
+
+   TERMS.  "The deputies of its term": a reset event of a term configuration carries `depof`, the deputy set of every
+   height (as the harness configured the chain: genesis deputies below TermDuration+InterimDuration+1, from there on the
+   set elected by the latest snapshot block that is at least InterimDuration+1 below), and `pl`, the length of the prefix 1..pl every node under test is given first
+   (blocks 1..pl of the universe; block b of the generating spec is block pl+b here).  Signers are logged as
+   identities (a node that is a deputy of ANY term keeps its number), so the monitor counts, for a block of height h,
+   only the recovered signers that are in depof[h], against ceil(2/3 |depof[h]|).  Without `depof` every height has
+   the deputies 1..nd (one term).  The reset event of the current line is Trace[l - E.step]. *)
 EXTENDS TraceBase
 VARIABLES parent, miner, nd, self, known, conf, stable, head
 mvars == <<parent, miner, nd, self, known, conf, stable, head, l>>
@@ -15,33 +23,56 @@ Anc(b) == IF b = G THEN {G} ELSE {b} \cup Anc(parent[b])
 H(b) == Cardinality(Anc(b)) - 1
 KnownOf(e) == {G} \cup ToSet(e.unconf) \cup ToSet(e.chain)
 ConfOf(e) == [b \in KnownOf(e) \ {G} |-> ToSet(e.signers[ToString(b)])]
-Voters(b, c) == (c[b] \cap Dep) \cup {miner[b]}            \* distinct deputies of the term, the miner included
+Voters(b, c) == (c[b] \cap Dep) \cup {miner[b]}            \* distinct deputies of the term, the miner included (one term)
+R == Trace[l - E.step]                                      \* the reset event of the behaviour the current line belongs to
+PLOf(r) == IF "pl" \in DOMAIN r THEN r.pl ELSE 0
+DepOf(r, h) == IF "depof" \in DOMAIN r THEN ToSet(r.depof[h]) ELSE 1..r.nd   \* the deputies that sign height h
+QOf(r, h) == (2 * Cardinality(DepOf(r, h)) + 2) \div 3
+DepAtT(h) == DepOf(R, h)
+QAtT(h) == QOf(R, h)
+VotersT(b, c) == (c[b] \cap DepAtT(H(b))) \cup {miner[b]}  \* distinct deputies OF THE BLOCK'S TERM, the miner included
+\* the stable chain by height is the path from genesis to the stable block (chain[i] is the ancestor of height i)
 ChainOK(e) == /\ Len(e.chain) = H(e.stable)
-              /\ \A i \in 1..Len(e.chain) : H(e.chain[i]) = i /\ e.chain[i] \in Anc(e.stable)
+              /\ \A i \in 1..Len(e.chain) : parent[e.chain[i]] = (IF i = 1 THEN G ELSE e.chain[i - 1])
+              /\ (e.chain # <<>> => e.chain[Len(e.chain)] = e.stable)
 \* what C03 demands of one step from (known, conf, stable, head) to the logged state
-StepOK(e) ==
-  LET kn2 == KnownOf(e)  c2 == ConfOf(e)  st2 == e.stable  hd2 == e.head IN
+\* ... only with 2/3 (rounded up) distinct deputies of its term
+QuorumStep(e) == e.stable # stable => Cardinality(VotersT(e.stable, ConfOf(e))) >= QAtT(H(e.stable))
+\* ... and everything else
+StepRest(e) ==
+  LET kn2 == KnownOf(e)  c2 == ConfOf(e)  st2 == e.stable  hd2 == e.head  anc2 == Anc(e.stable) IN
   /\ st2 \in kn2 /\ hd2 \in kn2
   /\ \A b \in kn2 \ {G} : parent[b] \in kn2                 \* no orphan is ever stored
-  /\ stable \in Anc(st2)                                     \* only forward, to a descendant: never replaced, never forks
-  /\ (st2 # stable => Cardinality(Voters(st2, c2)) >= Q)     \* only with 2/3 (rounded up) distinct deputies
+  /\ stable \in anc2                                         \* only forward, to a descendant: never replaced, never forks
   /\ ChainOK(e)                                              \* its ancestors are stable with it, by height
   /\ st2 \in Anc(hd2)                                        \* the head is the stable block or a descendant
-  /\ \A b \in kn2 : b \in Anc(st2) \/ st2 \in Anc(b)         \* nothing beside the stable chain survives
+  /\ \A b \in kn2 : b \in anc2 \/ st2 \in Anc(b)             \* nothing beside the stable chain survives
   /\ \A b \in (kn2 \cap known) \ {G} : conf[b] \subseteq c2[b]  \* a stored confirm is never lost again
+StepOK(e) == StepRest(e) /\ QuorumStep(e)
 \* nothing changed - except that a deputy node's own background goroutine (batchConfirmStable) may have added the
 \* node's own confirm to blocks that are already stable
 Same(e) == /\ KnownOf(e) = known /\ e.stable = stable /\ e.head = head
            /\ \A b \in known \ {G} : \/ ConfOf(e)[b] = conf[b]
                                       \/ (b \in Anc(stable) /\ conf[b] \subseteq ConfOf(e)[b] /\ ConfOf(e)[b] \ conf[b] = {self})
 Adopt(e) == known' = KnownOf(e) /\ conf' = ConfOf(e) /\ stable' = e.stable /\ head' = e.head /\ UNCHANGED <<parent, miner, nd, self>>
+\* a behaviour starts from genesis or, in a term configuration, from the prefix 1..pl the node has just been given with
+\* the confirms of all deputies of each block's term: it must have accepted every block of it, each is stable with 2/3 of its term
 TReset == /\ Ev("reset")
           /\ parent' = E.parent /\ miner' = E.miner /\ nd' = E.nd /\ self' = E.self
-          /\ E.stable = G /\ E.head = G /\ E.unconf = <<>> /\ E.chain = <<>>
-          /\ known' = {G} /\ conf' = <<>> /\ stable' = G /\ head' = G
+          \* every block of the universe exists: the node's deputy manager let the harness schedule the miner it chose among the
+          \* deputies of the block's term (depof) at the block's height; the node accepted every block of the prefix
+          /\ ("build_err" \in DOMAIN E => E.build_err = "")
+          /\ ("prefix_err" \in DOMAIN E => E.prefix_err = "")
+          /\ LET pl == PLOf(E)
+                 cf == [b \in 1..pl |-> ToSet(E.signers[ToString(b)])] IN
+             /\ E.stable = pl /\ E.head = pl /\ E.unconf = <<>>
+             /\ Len(E.chain) = pl /\ \A i \in 1..pl : E.chain[i] = i /\ E.parent[i] = i - 1
+             /\ \A b \in 1..pl : Cardinality((cf[b] \cap DepOf(E, b)) \cup {E.miner[b]}) >= QOf(E, b)
+             /\ known' = {G} \cup 1..pl /\ conf' = (IF pl = 0 THEN <<>> ELSE cf) /\ stable' = pl /\ head' = pl
 TBlock == /\ Ev("InsertBlock") \/ Ev("RejectBlock") \/ Ev("InsertBlockDup")
-          /\ LET b == E.a[1] IN
+          /\ LET b == E.a[1] + PLOf(R) IN
              IF E.ok THEN /\ b \notin known /\ parent[b] \in known /\ H(b) > H(stable)   \* C02: parent known, above stable
+                          /\ miner[b] \in DepAtT(H(b))                                  \* C02: mined by a deputy of its term
                           /\ b \in KnownOf(E) /\ KnownOf(E) \subseteq known \cup {b}
                           /\ StepOK(E)
                      ELSE Same(E)                                                      \* a refused block changes nothing
